@@ -176,6 +176,7 @@ Proof.
       apply Body. auto.
     + destruct (1000 * full <? alloc_shared t s p) eqn:Hcap; [|discriminate].
       destruct (subseteqb X (free_shar s p) && (csize X =? full)) eqn:HX; [|discriminate].
+      destruct (desc_safeb t s p X && desc_users_okb t s p X) eqn:HDS; [|discriminate].
       apply andb_true_iff in HX as [HX Hsz]. apply subseteqb_true in HX. apply Z.eqb_eq in Hsz.
       apply Body. right; right. split; [exact HX|lia].
   - destruct (bool_decide (X = ∅)) eqn:HX; [|discriminate]. apply bool_decide_eq_true in HX. subst X.
@@ -279,7 +280,8 @@ Proof.
   - destruct ((full <=? csize (free_iso s p)) && r_isolate r).
     + destruct (subseteqb X (free_iso s p) && (csize X =? full)); [|discriminate]. apply Body.
     + destruct (1000 * full <? alloc_shared t s p); [|discriminate].
-      destruct (subseteqb X (free_shar s p) && (csize X =? full)); [|discriminate]. apply Body.
+      destruct (subseteqb X (free_shar s p) && (csize X =? full)); [|discriminate].
+      destruct (desc_safeb t s p X && desc_users_okb t s p X); [|discriminate]. apply Body.
   - destruct (bool_decide (X = ∅)); [|discriminate]. apply Body.
 Qed.
 
@@ -375,6 +377,51 @@ Proof.
   - injection Hs as <-. split; [exact HI'|]. split; [apply Cap_init|apply PosInv_init].
 Qed.
 
+(* Since the repair of K2 an allocation itself enforces the guard: the CPUs sliced off the sharable set of a pool
+   leave every pool below enough for what is granted there (sliceExclusiveCPUs).  Isolated CPUs and empty
+   slices are harmless by the capacity invariant. *)
+Lemma desc_safeb_of_cap s p (X : cset) :
+  Cap s -> (forall d, free_shar s d ∖ X = free_shar s d) -> desc_safeb t s p X = true.
+Proof.
+  intros HC HX. unfold desc_safeb. apply forallb_forall. intros d Hd. apply in_pools_iff in Hd.
+  destruct (anc t p d); cbn [negb orb]; [|reflexivity]. destruct (Nat.eqb d p); cbn [orb]; [reflexivity|].
+  rewrite HX. apply Z.leb_le. exact (HC d Hd).
+Qed.
+
+Lemma ta_alloc_guard s cid r p X s' :
+  tree_wf2 -> Inv t s -> Cap s -> ta_alloc t s cid r p X = Ok s' -> desc_safeb t s p X = true.
+Proof.
+  intros Hwf HI HC. unfold ta_alloc.
+  set (full := eff_full r). set (frac := eff_frac r).
+  destruct (0 <? full) eqn:Hfull.
+  - destruct ((full <=? csize (free_iso s p)) && r_isolate r) eqn:Hiso.
+    + destruct (subseteqb X (free_iso s p) && (csize X =? full)) eqn:HX; [|discriminate].
+      apply andb_true_iff in HX as [HX _]. apply subseteqb_true in HX. intros _.
+      apply desc_safeb_of_cap; [exact HC|]. intros d. exact (iso_part_harmless s p d X Hwf HI HX).
+    + destruct (1000 * full <? alloc_shared t s p); [|discriminate].
+      destruct (subseteqb X (free_shar s p) && (csize X =? full)); [|discriminate].
+      destruct (desc_safeb t s p X && desc_users_okb t s p X) eqn:HDS; [|discriminate].
+      apply andb_true_iff in HDS as [HDS _]. intros _. exact HDS.
+  - destruct (bool_decide (X = ∅)) eqn:HX; [|discriminate]. apply bool_decide_eq_true in HX. subst X. intros _.
+    apply desc_safeb_of_cap; [exact HC|]. intros d. set_solver.
+Qed.
+
+(* histories without reinstatement (no Reserve): no guard is needed *)
+Definition no_reserve (o : op) : bool := match o with OReserve _ _ => false | _ => true end.
+
+Lemma run_no_reserve_guarded os : forall s s', tree_wf2 -> J s -> forallb no_reserve os = true ->
+  run t s os = Ok s' -> run_g s os = Ok s'.
+Proof.
+  induction os as [|o os IH]; intros s s' Hwf HJ Hall; cbn [run run_g]; [auto|].
+  cbn [forallb] in Hall. apply andb_true_iff in Hall as [Ho Hos].
+  destruct (step t s o) as [s1|e] eqn:Hs; [|discriminate].
+  assert (Hg : op_guard s o = true).
+  { destruct HJ as (HI & HC & _). destruct o as [cid r p X|cid|cid|cid g|]; cbn [op_guard]; try reflexivity; [|discriminate].
+    cbn [step] in Hs. destruct (grants s !! cid); [discriminate|]. destruct (p <? length t)%nat; [|discriminate].
+    exact (ta_alloc_guard s cid r p X s1 Hwf HI HC Hs). }
+  rewrite Hg. intros H. exact (IH s1 s' Hwf (step_J s o s1 Hwf HJ Hg Hs) Hos H).
+Qed.
+
 Theorem reachable_cap os : forall s s', tree_wf2 -> J s -> run_g s os = Ok s' -> J s'.
 Proof.
   induction os as [|o os IH]; intros s s' Hwf HJ; cbn [run_g].
@@ -399,20 +446,36 @@ Qed.
 Lemma J_init t : J t (init t).
 Proof. split; [apply Inv_init|]. split; [apply Cap_init|apply PosInv_init]. Qed.
 
-(* ---- the full-strength statement (no guard) is false of the faithful model: K2 ---- *)
+(* ---- K2 ---- *)
 Local Open Scope nat_scope.
 Definition k2_tree : tree :=
   [ {| p_parent := Some 2; p_iso := ∅; p_res := lset [0]; p_shar := lset [1;2;3] |};
     {| p_parent := Some 2; p_iso := ∅; p_res := ∅; p_shar := lset [4;5;6;7] |};
     {| p_parent := None; p_iso := ∅; p_res := lset [0]; p_shar := lset [1;2;3;4;5;6;7] |} ].
+(* the history that used to oversubscribe pool 0: a Guaranteed 3-CPU container lands on the root and is
+   given exactly pool 0's shared CPUs.  The allocation now refuses this choice of CPUs ... *)
 Definition k2_ops : list op :=
   [ OAlloc 1 {| r_full := 0%Z; r_fraction := 2500%Z; r_isolate := false; r_type := CpuNormal |} 0 ∅;
     OAlloc 2 {| r_full := 0%Z; r_fraction := 500%Z; r_isolate := false; r_type := CpuNormal |} 1 ∅;
-    (* a Guaranteed 3-CPU container lands on the root and is given exactly pool 0's shared CPUs *)
     OAlloc 3 {| r_full := 3%Z; r_fraction := 0%Z; r_isolate := false; r_type := CpuNormal |} 2 (lset [1;2;3]) ].
+Lemma k2_choice_refused : run k2_tree (init k2_tree) k2_ops = Err (ErrGuard 12).
+Proof. vm_compute. reflexivity. Qed.
+(* ... and accepts CPUs that pool 1 can spare *)
+Definition k2_ops_ok : list op :=
+  [ OAlloc 1 {| r_full := 0%Z; r_fraction := 2500%Z; r_isolate := false; r_type := CpuNormal |} 0 ∅;
+    OAlloc 2 {| r_full := 0%Z; r_fraction := 500%Z; r_isolate := false; r_type := CpuNormal |} 1 ∅;
+    OAlloc 3 {| r_full := 3%Z; r_fraction := 0%Z; r_isolate := false; r_type := CpuNormal |} 2 (lset [5;6;7]) ].
+Lemma k2_other_choice_accepted : match run k2_tree (init k2_tree) k2_ops_ok with Ok _ => True | Err _ => False end.
+Proof. vm_compute. exact I. Qed.
+
+(* Reinstatement (Reserve) makes no such test: the full-strength statement, with Reserve and without the guard,
+   is still false of the faithful model. *)
+Definition k2r_ops : list op :=
+  [ OReserve 1 {| g_pool := 0; g_excl := ∅; g_type := CpuNormal; g_portion := 2500%Z |};
+    OReserve 3 {| g_pool := 2; g_excl := lset [1;2;3]; g_type := CpuNormal; g_portion := 0%Z |} ].
 Lemma capacity_refuted :
   tree_wfb2 k2_tree = true /\
-  match run k2_tree (init k2_tree) k2_ops with
+  match run k2_tree (init k2_tree) k2r_ops with
   | Ok s => (granted_sub k2_tree (gr_shared s) 0 >? 1000 * csize (free_shar s 0))%Z = true /\
             bool_decide (told_cpus k2_tree s {| g_pool := 0; g_excl := ∅; g_type := CpuNormal; g_portion := 2500%Z |} = ∅) = true
   | Err _ => False end.
